@@ -32,6 +32,9 @@ func (fr *Frame) call(x *ssa.Call, st *State, reach string) Val {
 		c.errorf("%s: dynamic call through %v", fr.name, fv.K)
 		return Val{K: KInt, C: []string{"0"}}
 	}
+	if c.rel != nil {
+		c.rel.dispatch(fr, fv, reach)
+	}
 	targets := c.pr.dynTargets(x)
 	sig := com.Value.Type().Underlying().(*types.Signature)
 	byRecv := sig.Params().Len() == 0
@@ -52,7 +55,9 @@ func (fr *Frame) call(x *ssa.Call, st *State, reach string) Val {
 		} else {
 			targs = args
 		}
+		fr.dispatchReach = reach
 		res := fr.callInPkg(t, targs, sub, sAnd(reach, g), x.Pos(), g)
+		fr.dispatchReach = ""
 		ins = append(ins, predIn{sub, g})
 		results = append(results, res)
 	}
@@ -294,11 +299,17 @@ func (fr *Frame) callByContract(callee *ssa.Function, fc *FuncContract, args []V
 		if strings.Contains(en.Text, "local(") {
 			continue // about the callee's own locals: proved there, not visible to callers
 		}
+		if c.rel != nil && !relKeeps(en) {
+			continue
+		}
 		g := fr.evalBool(en.E, post, en)
 		c.assume(sImp(reach, g))
 		collectEqs(g, eqs)
 	}
 	for _, en := range fc.Defines {
+		if c.rel != nil {
+			break
+		}
 		g := fr.evalBool(en.E, post, en)
 		c.assume(sImp(reach, g))
 	}
